@@ -10,6 +10,7 @@ import (
 
 	"github.com/getlantern/golog"
 	"github.com/getlantern/zenodb"
+	"github.com/getlantern/zenodb/simhook"
 	"github.com/gorilla/mux"
 	"github.com/gorilla/securecookie"
 )
@@ -103,6 +104,12 @@ func Configure(db *zenodb.DB, router *mux.Router, opts *Opts) (func(), error) {
 		cache:            cache,
 		queries:          make(chan *query, opts.QueryConcurrencyLimit*1000),
 		coalescedQueries: make(chan []*query, opts.QueryConcurrencyLimit),
+	}
+
+	if simhook.Enabled {
+		if rt := simhook.HTTPTransport(); rt != nil {
+			h.client.Transport = rt
+		}
 	}
 
 	log.Debugf("Starting %d goroutines to process queries", opts.QueryConcurrencyLimit)
